@@ -127,6 +127,7 @@ def run_harness(ctx, args, race=False, timeout=1200, env_extra=None, allow_fail=
 def make_cfg(spec="Spec", constants=None, invariants=(), properties=(), view=None, constraint=None,
              action_constraint=None, postcondition=None, init=None, next_=None, symmetry=None):
     lines = []
+    defs = []
     if init:
         lines += ["INIT " + init, "NEXT " + next_]
     else:
@@ -134,7 +135,11 @@ def make_cfg(spec="Spec", constants=None, invariants=(), properties=(), view=Non
     if constants:
         lines.append("CONSTANTS")
         for k, v in constants.items():
-            lines.append("  %s = %s" % (k, tla_value(v)))
+            if isinstance(v, Def):
+                defs.append((k, str(v)))
+                lines.append("  %s <- def_%s" % (k, k))
+            else:
+                lines.append("  %s = %s" % (k, tla_value(v)))
     if invariants:
         lines.append("INVARIANTS " + " ".join(invariants))
     if properties:
@@ -150,11 +155,22 @@ def make_cfg(spec="Spec", constants=None, invariants=(), properties=(), view=Non
     if symmetry:
         lines.append("SYMMETRY " + symmetry)
     lines.append("CHECK_DEADLOCK FALSE")
-    return "\n".join(lines) + "\n"
+    out = CfgText("\n".join(lines) + "\n")
+    out.defs = tuple(defs)
+    return out
 
 
 class Raw(str):
     """A TLA+ expression passed through verbatim."""
+
+
+class Def(str):
+    """A TLA+ expression too rich for a cfg file: it is defined in a generated wrapper module
+    and substituted with  CONSTANT C <- def_C."""
+
+
+class CfgText(str):
+    defs = ()
 
 
 def tla_value(v):
@@ -228,6 +244,14 @@ def tlc(ctx, module, cfg_text, name=None, workers=16, heap_gb=8, timeout=900, si
             shutil.copy(os.path.join(SPEC, f), d)
     for rel, src in (files or {}).items():
         shutil.copy(src, os.path.join(d, rel))
+    if getattr(cfg_text, "defs", ()):
+        wrapper = module + "_run"
+        body = "---- MODULE %s ----\nEXTENDS %s\n" % (wrapper, module)
+        for k, expr in cfg_text.defs:
+            body += "def_%s == %s\n" % (k, expr)
+        body += "====\n"
+        open(os.path.join(d, wrapper + ".tla"), "w").write(body)
+        module = wrapper
     open(os.path.join(d, module + ".cfg"), "w").write(cfg_text)
     cmd = ["java", "-Xmx%dg" % heap_gb, "-Xss64m", "-XX:+UseParallelGC"]
     if deque:
